@@ -15,6 +15,9 @@ sys.path.insert(0, os.path.join(VERIF, 'tools'))
 import build as buildmod  # noqa: E402
 
 REPO = buildmod.REPO
+# checks pointed at a scratch copy of the repository (VERIF_REPO, e.g. one carrying a seeded break) must not overwrite the evidence
+# and replays of /repo itself
+OUT = VERIF if os.path.abspath(REPO) == '/repo' else buildmod.WORK
 NCPU = int(os.environ.get('VERIF_JOBS', '16'))
 # this VM gains little beyond ~8 sanitizer processes (page-fault bound); 8 is the default fan-out
 NWORK = int(os.environ.get('VERIF_WORKERS', '8'))
@@ -344,9 +347,9 @@ class Check:
                 status = 2
         if status == 2:
             ev['coverage']['inconclusive'] = self.inconclusive
-        os.makedirs(os.path.join(VERIF, 'evidence'), exist_ok=True)
+        os.makedirs(os.path.join(OUT, 'evidence'), exist_ok=True)
         if status != 2:
-            with open(os.path.join(VERIF, 'evidence', self.pid + '.json'), 'w') as f:
+            with open(os.path.join(OUT, 'evidence', self.pid + '.json'), 'w') as f:
                 json.dump(ev, f, indent=1, sort_keys=True)
                 f.write('\n')
         for key, lst in sorted(listed.items()):
@@ -354,7 +357,7 @@ class Check:
             print('KNOWN-FINDING: property=%s %s [%s] (%d occurrences; e.g. %s)' % (
                 self.pid, kf['what'], key, len(lst), lst[0][0].detail[:160]))
         if new:
-            rdir = os.path.join(VERIF, 'replays', self.pid)
+            rdir = os.path.join(OUT, 'replays', self.pid)
             os.makedirs(rdir, exist_ok=True)
             for key, lst in sorted(new.items()):
                 v = lst[0][0]
